@@ -325,10 +325,12 @@ pub fn entry_text_named(e: &Entry, namer: &mut dyn Namer) -> (String, Vec<usize>
         } => {
             let mut s = format!("commodity {}\n", name);
             if let Some(p) = precision {
+                // the sample of a format may be written without the commodity (it is the declared one)
+                let sym = if (name.len() + *p as usize) % 3 == 0 { String::new() } else { format!(" {}", name) };
                 if *p == 0 {
-                    s.push_str(&format!("    format 1,000 {}\n", name));
+                    s.push_str(&format!("    format 1,000{}\n", sym));
                 } else {
-                    s.push_str(&format!("    format 1,000.{} {}\n", "0".repeat(*p as usize), name));
+                    s.push_str(&format!("    format 1,000.{}{}\n", "0".repeat(*p as usize), sym));
                 }
             }
             push_alias_lines(&mut s, name, aliases);
